@@ -135,24 +135,22 @@ def specChain (priv : Bool) : ExtKey Curve.Pt → List Nat → Result (ExtKey Cu
     | .failure => .failure
 
 /-- a text accessor's answer: hex of the text, `!Tag` for an exception -/
-def showText : Option (Except Err Bytes) → String
-  | none => "unsupported"
-  | some (.ok b) => hx b
-  | some (.error e) => "!" ++ e.tag
+def showText : Except Err Bytes → String
+  | .ok b => hx b
+  | .error e => "!" ++ e.tag
 
 /-- `node.as_text(as_private=…)` — the class attribute `as_text = hwif` of the node's own class -/
-def asText (net : Pycoin.Addr.Network) (n : Node) (p : Bool) : Option (Except Err Bytes) := hwif net n p
+def asText (net : Pycoin.Addr.Network) (n : Node) (p : Bool) : Except Err Bytes := hwif net n p
 
 /-- `repr(node)`: `as_text(as_private=False)` inside `<…>`, prefixed by `private_for ` when there is a secret -/
-def reprText (net : Pycoin.Addr.Network) (n : Node) : Option (Except Err Bytes) :=
+def reprText (net : Pycoin.Addr.Network) (n : Node) : Except Err Bytes :=
   match asText net n false with
-  | none => none
-  | some (.error e) => some (.error e)
-  | some (.ok t) =>
+  | .error e => .error e
+  | .ok t =>
     let pre := match n.secretExponent with
       | some se => if se ≠ 0 then "private_for <".toUTF8.toList else "<".toUTF8.toList
       | none => "<".toUTF8.toList
-    some (.ok (pre ++ t ++ ">".toUTF8.toList))
+    .ok (pre ++ t ++ ">".toUTF8.toList)
 
 /-- `Key.wif()`: `None` for a public node -/
 def wifText (net : Pycoin.Addr.Network) (n : Node) : String :=
@@ -162,11 +160,10 @@ def wifText (net : Pycoin.Addr.Network) (n : Node) : String :=
     match toBytes32 se with
     | .error e => "!" ++ e.tag
     | .ok b =>
-      if !net.b58DoubleSha then "unsupported" else
       match net.outWif with
       | none => "!TypeError"
       | some p =>
-        match Base58.b2aHashed (p ++ b ++ [1]) with
+        match Base58.b2aHashedK net.hashWif (p ++ b ++ [1]) with
         | .ok t => hx t
         | .error _ => "!EncodingError"
 
@@ -218,9 +215,8 @@ def handle1 : Handler := fun op args =>
       | .ok n =>
         let t (p : Bool) : String :=
           match hwif net n p with
-          | none => "unsupported"
-          | some (.ok b) => hx b
-          | some (.error e) => "!" ++ e.tag
+          | .ok b => hx b
+          | .error e => "!" ++ e.tag
         some s!"ok {showNode n} {t true} {t false}"
   | "bip32_nodepath", [n, path] => do
     let path ← textOf? path
@@ -233,9 +229,7 @@ def handle1 : Handler := fun op args =>
   | "hwif", [net, n, p] => do
     let net ← findNet? net; let p ← parseBool? p
     withNode n fun n =>
-      match hwif net n p with
-      | none => "unsupported"
-      | some r => showR hx r
+      showR hx (hwif net n p)
   | "hparse", [net, k, text] => do
     let net ← findNet? net; let k ← parseKind? k; let text ← parseHex? text
     match parseBip gen net k text with
@@ -340,7 +334,7 @@ def handle1 : Handler := fun op args =>
           match ver with
           | none => "!TypeError"
           | some v =>
-            match Base58.b2aHashed (Pycoin.Spec.BIP32.serialize execCrypto v e) with
+            match Base58.b2aHashedK net.hashParse (Pycoin.Spec.BIP32.serialize execCrypto v e) with
             | .ok t => hx t
             | .error _ => "!EncodingError"
         let pubE : Pycoin.Spec.BIP32.ExtKey Curve.Pt :=
